@@ -1,5 +1,6 @@
 import Geo.Props.C04
 import Geo.Props.C05c
+import Geo.Props.C04b
 #print axioms Geo.T04_2_elementwise
 #print axioms Geo.T04_3_mask_positionwise
 #print axioms Geo.calcFold_nil
@@ -29,3 +30,6 @@ import Geo.Props.C05c
 #print axioms Geo.T05_2_reachable_inv3
 #print axioms Geo.ends_not_free
 #print axioms Geo.T04_1_reachable
+#print axioms Geo.summedLabels_not_out
+#print axioms Geo.nfree_le_nFree
+#print axioms Geo.T04_calculate_positionwise
